@@ -25,10 +25,14 @@ package protocol
 
 //@ func protocol.parseURLs
 //@   params vars device
+//@   local port = Phi#2 | call:strconv.Itoa#1
+//@   local scheme = Phi#1
 //@   local v = UnOp#1 | addr:Alloc#3
 //@   props C20 C10(sweep)
 //@   sweep bounds,panic,make,nilmem
 //@   callassert Itoa#1: @roleport (device && v.Variable == RVDevPort) || (!device && v.Variable == RVOwnerPort)
+//@   invariant loop#1: scheme == "tls" || scheme == "tcp" || scheme == "http" || scheme == "https" || scheme == "coap+tcp" || scheme == "coap"
+//@   invariant loop#1: scheme == "http" || scheme == "https" || scheme == "coap+tcp" || scheme == "coap" ==> port != ""
 
 //@ func protocol.ParseDeviceRvInfo
 //@   params rvInfo
